@@ -14,6 +14,7 @@
 (*              hand / seat / led  -> out                                  *)
 (*   choose   : o, hand -> out   (RandomPlay.play on the object's state)   *)
 (*   agree    : all objects of the trace hold the same public state        *)
+(*   highest  : suit, cards -> out (calc_highest called directly)          *)
 (*   peek     : done, taken as seen by another thread in the middle of a   *)
 (*              play (harness/race.py)                                     *)
 (*   trick    : trump, decl, cards (4)  -> projected state of a fresh      *)
@@ -135,6 +136,17 @@ Consume ==
                              <<"MODEL-LAW", exp = P!AvailableCards(SetOf(e.hand), e.led)>> >>)
         IN IF c = "" THEN Good(cur)
            ELSE Bad(e, "avail:o=static:fail=" \o c)
+     ELSE IF e.ev = "highest" THEN
+        \* the public helper calc_highest(suit, cards), called directly
+        LET exp == P!CalcHighest(e.suit, e.cards)
+            inSuit == {k \in 1..Len(e.cards) : CardSuit(e.cards[k]) = e.suit}
+            c == AllFails(<< <<"result", e.res = "ok">>,
+                             <<"highest", e.res = "ok" => e.out = exp>>,
+                             <<"MODEL-LAW", IF e.suit = NT \/ inSuit = {} THEN exp = -1
+                                            ELSE /\ exp + 1 \in inSuit
+                                                 /\ \A k \in inSuit :
+                                                       CardRank(e.cards[k]) <= CardRank(e.cards[exp + 1])>> >>)
+        IN IF c = "" THEN Good(cur) ELSE Bad(e, "highest:o=plain:fail=" \o c)
      ELSE IF e.ev = "peek" THEN
         \* a look at the object from another thread while a card is being
         \* played: whenever play is over the two sides' counts total thirteen
